@@ -16,18 +16,30 @@ theorem new_session_salt_adopted (s : St) (ns : Int) :
     (newsStep s ns).salt = ns ∧ ns ∈ (newsStep s ns).owedStore ∧ (newsStep s ns).adopted = s.adopted ++ [ns] := by
   simp [newsStep]
 
-/-- **every adopted salt is written to the session store, in order**: what has been stored plus what is
-still owed is exactly the sequence of salts adopted; a quiescent client has stored them all -/
+/-- **every adopted salt is handed to the session store, in order**: what has been handed over (written, or
+refused by the store — an environment fault, `storeLost`) plus what is still owed is exactly the sequence of
+salts adopted; a quiescent client has handed them all over; and when the store refused nothing, what is
+written is exactly what was adopted -/
 theorem salts_saved (s : St) (h : Reachable s) :
-    s.stored.reverse ++ s.owedStore = s.adopted ∧ (quiescent s = true → s.stored.reverse = s.adopted) := by
+    s.storeLog.reverse ++ s.owedStore = s.adopted ∧
+    (quiescent s = true → s.storeLog.reverse = s.adopted) ∧
+    (quiescent s = true → s.failedStore = [] → s.stored.reverse = s.adopted) := by
   have hs := storeOk_reachable s h
-  refine ⟨hs, ?_⟩
-  intro hq
-  unfold quiescent at hq
-  simp only [Bool.and_eq_true, List.isEmpty_iff] at hq
   unfold StoreOk at hs
-  rw [hq.1.2] at hs
-  simpa using hs
+  have hqe : quiescent s = true → s.storeLog.reverse = s.adopted := by
+    intro hq
+    unfold quiescent at hq
+    simp only [Bool.and_eq_true, List.isEmpty_iff] at hq
+    have h1 := hs.1
+    rw [hq.1.2] at h1
+    simpa using h1
+  exact ⟨hs.1, hqe, fun hq hf => by rw [hs.2 hf]; exact hqe hq⟩
+
+/-- a store that refuses a salt does not stop the rotation: the salt is adopted, the refusal recorded, the
+rejected request repeated under the new salt -/
+example : (run {} [.send 0 1000 1 5, .recv 70 0 (.salt 1000 6), .storeLost 6, .send 0 1004 3 6,
+    .recv 75 1 (.res 1004 "a"), .deliver 0 "a", .ack 1008 4 [75]]).map
+    (fun s => (s.salt, s.stored, s.failedStore, s.adopted, quiescent s)) = some (6, [], [6], [6], true) := by decide +kernel
 
 /-- **exactly the rejected request is re-sent**: bad_server_salt naming a registered request `bad` of
 caller `c` removes that entry, tells `c` (and nobody else) to repeat, and leaves every other registered
